@@ -182,13 +182,45 @@ def sdml_max_balance(name, data, params):
 
 
 _FIT_CACHE = {}
-KF_ITML = 'known-finding ITML NonPSDError on large-scale data (logscale >= 1, prior != covariance)'
+KF_ITML = 'known-finding KF1: ITML NonPSDError when a projection must move a distance by a factor > 1e6 (large-scale data / 1e-9 default bound)'
 
 
 def itml_largescale(name, desc, params):
   p = params.get('prior', 'identity')
   return name in ('ITML', 'ITML_Supervised') and desc.get('logscale', 0) >= 1 and \
       not (isinstance(p, str) and p == 'covariance')
+
+
+def itml_kappa(name, args, params, kw):
+  """largest factor by which a Bregman projection must move a distance under the prior (KF1 predicate);
+  evaluated only after a NonPSDError, with the harness' own prior / default-bounds construction."""
+  try:
+    if name == 'ITML':
+      P, yy = np.asarray(args[0], dtype=float), np.asarray(args[1])
+      if P.ndim != 3:
+        return 1.0
+    else:
+      from .common import mlsub
+      C = mlsub('constraints')
+      X, y = np.asarray(args[0], dtype=float), np.asarray(args[1])
+      n = params.get('n_constraints') or 20 * len(np.unique(y)) ** 2
+      with quiet():
+        pn = C.Constraints(y).positive_negative_pairs(n, random_state=params.get('random_state'))
+        P, yy = C.wrap_pairs(X, pn)
+    d = P.shape[2]
+    M0 = np.linalg.inv(prior_inverse(params.get('prior', 'identity'), d, P, params.get('random_state')))
+    V = P[:, 0] - P[:, 1]
+    p0 = np.einsum('ij,jk,ik->i', V, M0, V)
+    b = (kw or {}).get('bounds')
+    if b is None:
+      U = np.unique(P.reshape(-1, d), axis=0)
+      Dm = np.sqrt(((U[:, None, :] - U[None, :, :]) ** 2).sum(-1))
+      b = np.percentile(Dm, (5, 95))
+    b = np.where(np.asarray(b, dtype=float) == 0, 1e-9, b)
+    xi0 = np.where(yy == 1, b[0], b[1])
+    return float(max(1.0, np.where(yy == 1, p0 / xi0, xi0 / np.maximum(p0, 1e-300)).max()))
+  except Exception:
+    return 1.0
 
 
 def fit_call(sig, name, est, args, desc, params, expect=(), kw=None, report_kf=False):
@@ -198,7 +230,8 @@ def fit_call(sig, name, est, args, desc, params, expect=(), kw=None, report_kf=F
   try:
     return call('%s/%s' % (sig, name), est.fit, *args, expect=expect, **(kw or {}))
   except Violation as v:
-    if v.sig.endswith('raises-NonPSDError') and itml_largescale(name, desc, params):
+    if v.sig.endswith('raises-NonPSDError') and name in ('ITML', 'ITML_Supervised') and \
+        (itml_largescale(name, desc, params) or itml_kappa(name, args, params, kw) > 1e6):
       if report_kf:
         raise Violation(v.sig + '/largescale', v.msg)
       raise Discard(KF_ITML)
